@@ -51,4 +51,29 @@ theorem confirm_ledgerInv_dec {l : L} (I : LedgerInv l) (id pre : Nat) (txs : Li
     · intro t ht
       exact hidC (t, id) (lookup_mem _ _ _ ht) rfl
 
+/-- `confirm` preserves invariant + `CStored`; only the no-repeat hypothesis is needed -/
+theorem confirm_ledgerInv_cstored_dec {l : L} (I : LedgerInv l) (CS : CStored l) (id pre : Nat) (txs : List (Nat × Bool))
+    (hfresh : ∀ t, t ∈ txs.map (·.1) → t ∉ branchTxs l pre) :
+    LedgerInv (confirm l id pre txs).1 ∧ CStored (confirm l id pre txs).1 := by
+  cases hp : lookup l.B pre with
+  | none =>
+    rcases confirm_cases l id pre txs with e | ⟨pb, _, hp', _⟩
+    · rw [e]; exact ⟨I, CS⟩
+    · rw [hp] at hp'; cases hp'
+  | some pb =>
+    refine confirm_ledgerInv_cstored I CS id pre txs ?_
+    intro a ha hab sa t ht hta
+    exact hfresh t ht (mem_branchTxs I.tree hp hab sa hta)
+
+/-- item (h) in its strongest form: every transaction of a stored block is mapped by the confirmed table to a stored
+block that contains it -/
+def HFull (l : L) : Prop :=
+  ∀ b h t, lookup l.B b = some h → t ∈ h.txs → ∃ c ch, lookup l.C t = some c ∧ lookup l.B c = some ch ∧ t ∈ ch.txs
+
+theorem hfull_of_cstored {l : L} (I : LedgerInv l) (CS : CStored l) : HFull l := by
+  intro b h t hb ht
+  obtain ⟨c, hc⟩ := I.c_total b h t hb ht
+  obtain ⟨ch, sc⟩ := CS t c hc
+  exact ⟨c, ch, hc, sc, I.c_sound t c ch hc sc⟩
+
 end XV.Ledger
